@@ -34,11 +34,17 @@ def find_field(ir, file, path, name):
     for f in t.structure.field:
         if f.name.name.text == name:
             return f
+    for rp in t.runtime_parameter:
+        if rp.name.name.text == name:
+            return rp
     return None
 
 
 def observed_target(field, ref):
     if ref.kind == "type":
+        if hasattr(field, "physical_type_alias"):  # a parameter: its declared type
+            r = field.physical_type_alias.atomic_type.reference
+            return canonical_of_ir_name(r.canonical_name) if r.has_field("canonical_name") else None
         ty = field.type
         while ty.which_type == "array_type":
             ty = ty.array_type.base_type
